@@ -139,6 +139,17 @@ namespace verif
         static constexpr const char* name = "static";
     };
 
+    // a virtual_block_allocator is failed through its own path: the commit (mprotect) of the block is refused
+    template <>
+    struct native_failure<logged_blocks<fm::virtual_block_allocator>>
+    {
+        static constexpr bool value = true;
+    };
+    template <>
+    struct native_failure<fm::virtual_block_allocator>
+    {
+        static constexpr bool value = true;
+    };
     struct src_virtual
     {
         using type = logged_blocks<fm::virtual_block_allocator>;
